@@ -26,12 +26,13 @@ from harness.core import sp
 from harness.core.trees import Universe
 
 PID = "C08"
-RULE = ("a case is one history over {construct(i, dash/gen/nest, config-path, resolve), add_arguments(i, class, dest), "
+RULE = ("a case is one history over {construct(i, dash/gen/nest, add_config_path_arg, config_path=files), add_arguments(i, class, dest), "
         "parse_args / parse_known_args(i, argv), print_help(i), format_help(i)} on a pool of <= 3 parsers; parser "
-        "definitions come from 5 small classes (int/str/bool/List/Optional fields, a heterogeneous Tuple field, a "
-        "subgroups field with two alternatives) x 6 spelling configurations; argv per parser: valid in its own spelling, "
+        "definitions come from 6 small classes (int/str/bool/List/Optional fields, a heterogeneous Tuple field, a "
+        "subgroups field with two alternatives, a field with a custom type=) x 6 spelling configurations; the same "
+        "dataclass object may be registered on several parsers; argv per parser: valid in its own spelling, "
         "valid in the other spelling, bad value, unknown option, -h, config files (present / missing). Exhaustive slice: "
-        "every history over a 17-letter alphabet on three fixed parsers up to length 3 + half of length 4 (quick) / up to length 4 + a third of length 5 (thorough); random "
+        "every history over a 23-letter alphabet on three fixed parsers up to length 3 + 1/40 of length 4 (quick) / up to length 4 + 1/60 of length 5 (thorough); random "
         "histories up to length 30. Non-trivial = >= 2 parse calls on one parser, or >= 2 parsers alive at a parse; "
         "distinct by canonical JSON.")
 ASSUMPTIONS = ["a fresh `/venv/bin/python -I` process that imports the library, builds one parser and parses once is the "
@@ -44,10 +45,12 @@ MANIFEST = {
     "text": ("Proof (partial): Lean state machine of a pool of parsers (process-global spelling settings written by every "
              "constructor, per-parser latch / frozen action table / parse_tuple call counters / pushed file defaults / "
              "config-path registration / frozen subgroup choices). Theorem c08_partial: for EVERY history, every parse call "
-             "made on a parser that was only used through calls outside the named exclusions (D5 foreign spelling at "
-             "first set-up, D6/D10 any second use of a config-path parser, D8 advanced tuple counter, D9 other subgroup "
-             "choice than the frozen one, late add_arguments) returns exactly the answer of a fresh parser; each "
-             "exclusion has a witness history refuting the full statement. Every parse of every generated history is "
+             "made on a parser that was only used through calls outside the named exclusions (D10 file defaults pushed "
+             "earlier / files given after set-up, D8 advanced tuple counter, D9 other subgroup choice than the frozen "
+             "one, late add_arguments; plus two stated proof gaps: config-path parser set up by print_help before its "
+             "first parse, constructor config_path= parsers beyond their first call) returns exactly the answer of a "
+             "fresh parser; each open finding has a witness history refuting the full statement; the repaired D5/D6 "
+             "histories are regression examples. Every parse of every generated history is "
              "compared with the model and with a fresh interpreter."),
     "note": ("Trusted: Lean kernel + standard axioms; harness; fresh-process reference. Modelled not verified: "
              "parsing.py:127-170,281-363,381-383,385-438,523-554,599-773, field_wrapper.py:97-103,591-595, "
@@ -91,7 +94,8 @@ CLASSES = {
     "L": {"name": "L", "fields": [_f("items", {"k": "list", "item": INT}, {"t": "list", "v": [_i(1), _i(2)]}),
                                   _f("opt_n", {"k": "opt", "inner": INT}, {"t": "none"})], "sub": None},
 }
-DEST = {"A": "a", "B": "b", "T": "t", "S": "s", "L": "l"}
+CLASSES["K"] = {"name": "K", "fields": [dict(_f("tag", STR, _s("0")), ctype="int"), _f("n_k", INT, _i(1))], "sub": None}
+DEST = {"A": "a", "B": "b", "T": "t", "S": "s", "L": "l", "K": "k"}
 CFGS = [
     {"dash": "UNDERSCORE", "gen": "FLAT", "nest": "DEFAULT"},
     {"dash": "DASH", "gen": "FLAT", "nest": "DEFAULT"},
@@ -106,6 +110,7 @@ FILES = [
     [D + "/f2.json", [["b", [["lr_x", _i(9)]]]]],
     [D + "/f3.json", [["t", [["n_items", _i(8)]]], ["a", [["a_b", _i(11)]]]]],
     [D + "/nope.json", None],
+    [D + "/r0.json", {"rootless": [["a_b", _i(13)], ["name", _s("rr")]]}],
 ]
 
 
@@ -143,6 +148,8 @@ def segments(cfg, cname, dest):
         return {"ok1": [o("mod"), "y"], "ok2": [o("mod"), "x", spelled(cfg, dest + ".mod", "xv"), "3"],
                 "ok3": [o("mod"), "y", spelled(cfg, dest + ".mod", "yv"), "7", o("k_v"), "4"],
                 "ok4": [spelled(cfg, dest + ".mod", "w_w"), "9"], "bad": [o("mod"), "z"]}
+    if cname == "K":
+        return {"ok1": [o("tag"), "12"], "ok2": [o("n_k"), "4", o("tag") + "=7"], "bad": [o("tag"), "abc"]}
     if cname == "L":
         return {"ok1": [o("items"), "4", "5", "6"], "ok2": [o("opt_n"), "3", o("items")], "bad": [o("opt_n"), "q"]}
     raise KeyError(cname)
@@ -152,22 +159,32 @@ def segments(cfg, cname, dest):
 # the real code
 
 
+CTYPES = {"int": int, "float": float, "str": str}
+
+
 def build_class(u: Universe, cs: dict):
+    """the REAL dataclass of a class spec; one object per name and history (so two parsers can share it)"""
     if cs["name"] in u.classes:
         return u.classes[cs["name"]]
-    if not cs.get("sub"):
-        return u.add_class(cs["name"], {"fields": cs["fields"]})
     from simple_parsing import subgroups
+    from simple_parsing.helpers import field as sp_field
 
-    sub = cs["sub"]
-    alts = {a["key"]: (u.classes.get(a["cls"]) or u.add_class(a["cls"], {"fields": a["fields"]})) for a in sub["alts"]}
-    # plain fields through the shared builder, then the subgroups field appended
     tmp = Universe()
     tmp.classes, tmp.enums = u.classes, u.enums
-    plain = tmp.add_class("_plain_" + cs["name"], {"fields": cs["fields"]})
+    plain = tmp.add_class("_plain_" + cs["name"], {"fields": [{k: v for k, v in f.items() if k != "ctype"} for f in cs["fields"]]})
     del u.classes["_plain_" + cs["name"]]
-    fields = [(f.name, f.type, _copy_field(f)) for f in dataclasses.fields(plain)]
-    fields.append((sub["name"], Union[tuple(alts.values())], subgroups(dict(alts), default=sub["default"])))
+    ctype = {f["name"]: f["ctype"] for f in cs["fields"] if f.get("ctype")}
+    fields = []
+    for f in dataclasses.fields(plain):
+        if f.name in ctype:
+            kw = {"default": f.default} if f.default is not dataclasses.MISSING else {}
+            fields.append((f.name, f.type, sp_field(type=CTYPES[ctype[f.name]], **kw)))
+        else:
+            fields.append((f.name, f.type, _copy_field(f)))
+    sub = cs.get("sub")
+    if sub:
+        alts = {a["key"]: (u.classes.get(a["cls"]) or u.add_class(a["cls"], {"fields": a["fields"]})) for a in sub["alts"]}
+        fields.append((sub["name"], Union[tuple(alts.values())], subgroups(dict(alts), default=sub["default"])))
     cls = dataclasses.make_dataclass(cs["name"], fields)
     u.classes[cs["name"]] = cls
     return cls
@@ -182,14 +199,14 @@ def _copy_field(f):
     return dataclasses.field(**kw, metadata=dict(f.metadata))
 
 
-def construct(op: dict):
-    import simple_parsing
-
+def construct(op: dict, d: str):
     kw = {}
     if op.get("cfg_path"):
         kw["add_config_path_arg"] = True
-    if op.get("resolve"):
-        kw["conflict_handler"] = "resolve"
+    if op.get("cfg_files"):
+        kw["config_path"] = [f.replace(D, d) for f in op["cfg_files"]]
+        if not op.get("cfg_path"):
+            kw["add_config_path_arg"] = False
     return sp.make_parser(op["cfg"], **kw)
 
 
@@ -227,7 +244,10 @@ def write_files(files) -> str:
         if content is None:
             p.unlink(missing_ok=True)
         else:
-            p.write_text(json.dumps({dest: {k: py_value(v) for k, v in kvs} for dest, kvs in content}))
+            if isinstance(content, dict):
+                p.write_text(json.dumps({k: py_value(v) for k, v in content["rootless"]}))
+            else:
+                p.write_text(json.dumps({dest: {k: py_value(v) for k, v in kvs} for dest, kvs in content}))
     return d
 
 
@@ -339,7 +359,7 @@ def run_history(c):
         g = globals_now()
         before = peek(pool[i]) if i in pool and kind != "construct" else None
         if kind == "construct":
-            pool[i] = construct(op)
+            pool[i] = construct(op, d)
             outs.append({"o": "unit"})
         elif kind == "add":
             cls = build_class(u, op["cls"])
@@ -352,7 +372,7 @@ def run_history(c):
             outs.append(help_obs(lambda: pool[i].format_help()))
         else:
             raise ValueError(kind)
-        trace.append({"G": g, "before": before, "after": peek(pool[i])})
+        trace.append({"G": g, "G_after": globals_now(), "before": before, "after": peek(pool[i])})
     sp.reset_globals()
     return outs, trace
 
@@ -399,7 +419,7 @@ def fresh_in_this_process(spec, known, argv, files):
     sp.reset_globals()
     d = write_files(files)
     u = Universe()
-    parser = construct(spec)
+    parser = construct(spec, d)
     specs = {}
     for r in spec["regs"]:
         specs[r["cls"]["name"]] = r["cls"]
@@ -425,19 +445,19 @@ def spec_at(ops, k):
         if op["i"] != i:
             continue
         if op["op"] == "construct":
-            spec = {"cfg": op["cfg"], "cfg_path": bool(op.get("cfg_path")), "resolve": bool(op.get("resolve")), "regs": []}
+            spec = {"cfg": op["cfg"], "cfg_path": bool(op.get("cfg_path")), "cfg_files": list(op.get("cfg_files") or []), "regs": []}
         elif op["op"] == "add" and spec is not None:
             spec["regs"].append({"dest": op["dest"], "cls": op["cls"]})
     return spec
 
 
-def used_files(files, argv):
-    names = {a for a in argv} | {a.split("=", 1)[1] for a in argv if "=" in a}
+def used_files(files, argv, spec):
+    names = {a for a in argv} | {a.split("=", 1)[1] for a in argv if "=" in a} | set(spec.get("cfg_files") or [])
     return [f for f in (files or []) if f[0] in names]
 
 
 def fresh_key(spec, known, argv, files):
-    return canon([spec, bool(known), argv, used_files(files, argv)])
+    return canon([spec, bool(known), argv, used_files(files, argv, spec)])
 
 
 def _fresh_subprocess(key: str) -> dict:
@@ -484,8 +504,8 @@ def precompute(cases):
 # generator
 
 
-def mk(i, cfg, cfg_path=False, resolve=False):
-    return {"op": "construct", "i": i, "cfg": cfg, "cfg_path": cfg_path, "resolve": resolve}
+def mk(i, cfg, cfg_path=False, cfg_files=()):
+    return {"op": "construct", "i": i, "cfg": cfg, "cfg_path": cfg_path, "cfg_files": list(cfg_files)}
 
 
 def add(i, cname, dest=None):
@@ -504,47 +524,61 @@ def hist(ops, note=None):
 
 
 def alphabet():
-    """17 letters over three fixed parsers (a letter may be a short macro: constructor + its add_arguments)"""
+    """23 letters over three slots (a letter may be a short macro: constructor + its add_arguments)"""
     c0, c1, c2 = CFGS[1], CFGS[3], CFGS[0]
     s0, s1, s2 = segments(c0, "A", "a"), segments(c1, "T", "t"), segments(c2, "S", "s")
+    k = segments(c2, "K", "k")
     return [
         ("mk0", [mk(0, c0), add(0, "A")]), ("mk1", [mk(1, c1), add(1, "T")]), ("mk2", [mk(2, c2), add(2, "S")]),
+        # slot 1 as a parser with constructor config file in the root-less layout (WITHOUT_ROOT, one dataclass)
+        ("mk1c", [mk(1, CFGS[5], cfg_files=[D + "/r0.json"]), add(1, "A")]),
+        # slots 0 and 2 over the SAME dataclass K whose field carries a custom type=
+        ("mk0k", [mk(0, c2), add(0, "K")]), ("mk2k", [mk(2, c2), add(2, "K")]),
         ("p0ok", [parse(0, s0["ok1"])]), ("p0foreign", [parse(0, s0["foreign"])]), ("p0h", [parse(0, ["-h"])]),
+        ("p0k", [parse(0, k["ok1"])]),
         ("p1ok", [parse(1, s1["ok1"])]), ("p1empty", [parse(1, [])]), ("p1bad", [parse(1, s1["bad"])]),
         ("p2y", [parse(2, s2["ok1"])]), ("p2x", [parse(2, s2["ok2"])]), ("p2empty", [parse(2, [], known=True)]),
+        ("p2bad", [parse(2, s2["bad"])]), ("p2k", [parse(2, k["ok1"])]),
         ("h0", [{"op": "print_help", "i": 0}]), ("h1", [{"op": "print_help", "i": 1}]), ("h2", [{"op": "print_help", "i": 2}]),
         ("f0", [{"op": "format_help", "i": 0}]), ("add0", [add(0, "B")]),
     ]
 
 
 def exhaustive(maxlen):
+    """every word over the alphabet, up to `maxlen` letters, in which each call addresses a constructed parser, the
+    late add happens at most once and the last call is a parse (by extension of valid prefixes, length by length)"""
     letters = alphabet()
-    for n in range(1, maxlen + 1):
-        for word in itertools.product(letters, repeat=n):
-            alive, ok, has_parse = set(), True, False
-            for name, ops in word:
+    level = [((), frozenset(), False)]
+    for _n in range(1, maxlen + 1):
+        nxt = []
+        for word, alive, added in level:
+            for letter in letters:
+                name, ops = letter
                 i = ops[0]["i"]
                 if name.startswith("mk"):
-                    alive.add(i)
-                elif i not in alive:
-                    ok = False
-                    break
-                if name == "add0" and sum(1 for w in word if w[0] == "add0") > 1:
-                    ok = False
-                    break
-                has_parse = has_parse or ops[0]["op"] == "parse"
-            if ok and has_parse and word[-1][1][0]["op"] == "parse":
+                    nxt.append((word + (letter,), alive | {i}, added))
+                elif i in alive and not (name == "add0" and added):
+                    nxt.append((word + (letter,), alive, added or name == "add0"))
+        level = nxt
+        for word, _alive, _added in level:
+            if word[-1][1][0]["op"] == "parse":
                 yield hist([op for _, ops in word for op in ops], note="exh:" + "+".join(w[0] for w in word))
 
 
 def make_definition(rng):
     """a parser definition + a small fixed menu of argv for it (keeps the number of distinct fresh-interpreter runs small)"""
     cfg = rng.choice(CFGS)
-    cp = rng.random() < 0.25 and cfg["nest"] == "DEFAULT"
-    resolve = cp and rng.random() < 0.5
-    names = rng.sample(["A", "B", "T", "S", "L"], rng.choice([1, 1, 2, 2, 3]))
+    names = rng.sample(["A", "B", "T", "S", "L", "K"], rng.choice([1, 1, 2, 2, 3]))
+    r = rng.random()
+    cp = r < 0.25
+    cf = []
+    if 0.25 <= r < 0.40:
+        # constructor config_path= (add_config_path_arg=False): one dataclass A, file in the layout its nested mode expects
+        names = ["A"] + [nm for nm in names if nm not in ("A", "S")][: rng.choice([0, 0, 1])]
+        rootless = cfg["nest"] == "WITHOUT_ROOT" and len(names) == 1
+        cf = [D + "/r0.json"] if rootless else [D + rng.choice(["/f0.json", "/f1.json"])]
     free = [nm for nm in ["A", "B", "T", "L"] if nm not in names]
-    d = {"cfg": cfg, "cp": cp, "resolve": resolve, "names": names, "late": rng.choice(free) if free else None}
+    d = {"cfg": cfg, "cp": cp, "cf": cf, "names": names, "late": rng.choice(free) if free and rng.random() < 0.7 else None}
 
     def menu(ns):
         out = [[], ["-h"], ["--zzz"]]
@@ -556,7 +590,11 @@ def make_definition(rng):
             if "B" in ns and not any(a.split("=")[0].endswith(("lr_x", "lr-x")) for a in argv) and rng.random() < 0.8:
                 argv += segments(cfg, "B", "b")["ok1"]
             if cp and rng.random() < 0.6:
-                fs = [f[0] for f in FILES if f[1] is None or all(DEST_INV[dk[0]] in ns for dk in f[1])]
+                rootless = cfg["nest"] == "WITHOUT_ROOT" and len(ns) == 1
+                if rootless:
+                    fs = [D + "/r0.json", D + "/nope.json"] if ns == ["A"] else [D + "/nope.json"]
+                else:
+                    fs = [f[0] for f in FILES if f[1] is None or (not isinstance(f[1], dict) and all(DEST_INV[dk[0]] in ns for dk in f[1]))]
                 if fs:
                     argv += ["--config_path"] + rng.sample(fs, rng.randint(1, min(2, len(fs))))
             out.append(argv)
@@ -574,7 +612,7 @@ def random_history(rng, maxlen, defs):
 
     def new_parser(i):
         d = rng.choice(defs)
-        ops.append(mk(i, d["cfg"], d["cp"], d["resolve"]))
+        ops.append(mk(i, d["cfg"], d["cp"], d["cf"]))
         for nm in d["names"]:
             ops.append(add(i, nm))
         alive[i] = {"d": d, "late": False}
@@ -605,22 +643,18 @@ DEST_INV = {v: k for k, v in DEST.items()}
 
 
 def gen_list(rng, tier):
+    words = list(exhaustive(4 if tier == "quick" else 5))
+    nlet = lambda c: c["case"]["note"].count("+") + 1  # noqa: E731
     if tier == "quick":
-        # every word up to length 3, and every second word of length 4 (which half depends on the seed)
-        words = list(exhaustive(4))
-        short = [c for c in words if c["case"]["note"].count("+") < 3]
-        long_ = [c for c in words if c["case"]["note"].count("+") >= 3]
-        off = rng.randrange(2)
-        cases = short + long_[off::2]
+        # every word up to length 3, and every 40th word of length 4 (which ones depends on the seed)
+        full, stride = 3, 40
     else:
-        # every word up to length 4, and every third word of length 5 (which third depends on the seed)
-        words = list(exhaustive(5))
-        short = [c for c in words if c["case"]["note"].count("+") < 4]
-        long_ = [c for c in words if c["case"]["note"].count("+") >= 4]
-        off = rng.randrange(3)
-        cases = short + long_[off::3]
+        # every word up to length 4, and every 60th word of length 5
+        full, stride = 4, 60
+    long_ = [c for c in words if nlet(c) > full]
+    cases = [c for c in words if nlet(c) <= full] + long_[rng.randrange(stride)::stride]
     defs = [make_definition(rng) for _ in range(12 if tier == "quick" else 70)]
-    n_rand = 200 if tier == "quick" else 2000
+    n_rand = 120 if tier == "quick" else 2000
     for k in range(n_rand):
         cases.append(random_history(rng, 12 if k % 3 else 30, defs))
     return cases
@@ -639,7 +673,7 @@ def gen(rng, tier):
                 keys.add(fresh_key(spec_at(ops, k), op.get("known", False), op["argv"], c["case"].get("files")))
     keys = sorted(keys)
     rng.shuffle(keys)
-    for key in keys[: 250 if tier == "quick" else 1000]:
+    for key in keys[: 100 if tier == "quick" else 1000]:
         spec, known, argv, files = json.loads(key)
         yield {"op": "hist.fresh", "case": {"spec": spec, "known": known, "argv": argv, "files": files}}
 
@@ -685,7 +719,10 @@ def oracle(case, obs):
         if op["op"] != "parse" or obs["fresh"][k] is None:
             continue
         if not same(obs["outs"][k], obs["fresh"][k]):
-            fails.append({"clause": "history-independence", "k": k,
+            probe = {"clause": "history-independence", "k": k}
+            known = [fid for fid, pred in FINDINGS.items() if pred(case, obs, probe)]
+            # the clause names the signature it matches, so that shrinking a NEW failure cannot drift into a known one
+            fails.append({"clause": "history-independence" + (":like:" + known[0] if known else ""), "k": k,
                           "detail": f"call #{k} parse(parser {op['i']}, {op['argv']}) returned {canon(obs['outs'][k])[:400]} "
                                     f"but a fresh identically configured parser returns {canon(obs['fresh'][k])[:400]}"})
     return fails
@@ -705,13 +742,13 @@ def _proj_out(o):
 def project(case, obs):
     if case["op"] == "hist.fresh":
         return _proj_out(obs["fresh1"])
-    return {"outs": [_proj_out(o) for o in obs["outs"]]}
+    return {"outs": [_proj_out(o) for o in obs["outs"]], "g": [t["G_after"] for t in obs["trace"]]}
 
 
 def project_model(case, mo):
     if case["op"] == "hist.fresh":
         return _proj_out(mo)
-    return {"outs": [_proj_out(o) for o in mo.get("outs", [])]}
+    return {"outs": [_proj_out(o) for o in mo.get("outs", [])], "g": mo.get("g")}
 
 
 def model_unmodelled(mo):
@@ -783,7 +820,7 @@ def tags(case, obs):
 def _ctx(case, obs, fail):
     ops = case["case"]["ops"]
     k = fail.get("k")
-    if k is None or fail.get("clause") != "history-independence":
+    if k is None or not str(fail.get("clause", "")).startswith("history-independence"):
         return None
     op = ops[k]
     i = op["i"]
@@ -796,27 +833,6 @@ def _ctx(case, obs, fail):
 def _has_hetero_tuple(spec):
     return any(f["ty"]["k"] == "tuple" and len({canon(x) for x in f["ty"]["items"]}) > 1
                for r in spec["regs"] for f in r["cls"]["fields"])
-
-
-def sig_d5(case, obs, fail):
-    x = _ctx(case, obs, fail)
-    if not x:
-        return False
-    own = x["spec"]["cfg"]
-    for j in x["mine"] + [x["k"]]:
-        tr = x["trace"][j]
-        b = tr["before"]
-        if b is not None and not b["pre"] and tr["after"]["pre"] and tr["G"] != own:
-            # the latch closed while the settings of the LAST constructed parser (another one) were the global ones
-            last = max((m for m in range(j) if x["ops"][m]["op"] == "construct"), default=None)
-            return last is not None and last > x["start"] and x["ops"][last]["cfg"] == tr["G"]
-    return False
-
-
-def sig_d6(case, obs, fail):
-    x = _ctx(case, obs, fail)
-    return bool(x and x["spec"]["cfg_path"] and not x["spec"]["resolve"] and x["before"].get("cfg_reg")
-                and x["got"] == {"o": "raise", "exc": "ArgumentError"})
 
 
 def sig_d8(case, obs, fail):
@@ -850,7 +866,7 @@ def sig_d9(case, obs, fail):
 
 def sig_d10(case, obs, fail):
     x = _ctx(case, obs, fail)
-    if not x or not x["spec"]["cfg_path"]:
+    if not x or not (x["spec"]["cfg_path"] or x["spec"]["cfg_files"]):
         return False
     if not (x["before"].get("pre") or x["before"].get("cfg_reg")):
         earlier_files = any(x["ops"][j]["op"] == "parse" and any(a.endswith(".json") for a in x["ops"][j]["argv"]) for j in x["mine"])
@@ -878,8 +894,6 @@ def sig_late_add(case, obs, fail):
 
 
 FINDINGS = {
-    "C08-D5-global-spelling": sig_d5,
-    "C08-D6-config-path-registered-twice": sig_d6,
     "C08-D8-tuple-closure-counter": sig_d8,
     "C08-D9-subgroup-choice-frozen": sig_d9,
     "C08-D10-file-defaults-persist": sig_d10,
